@@ -379,11 +379,9 @@ func reprLits() []item {
 // collections generates all collections of the given depth whose items are drawn from `pool`.
 func collections(pool []item, maxItems int, indent string) []item {
 	var out []item
-	// empty forms
-	for _, k := range valueKinds {
+	// empty forms: both the empty-values form and the empty-associations form, with each of the seven contexts
+	for _, k := range append(append([]string{}, valueKinds...), assocKinds...) {
 		out = append(out, item{"[ ](" + k + ")", mkExp(k, nil, nil)})
-	}
-	for _, k := range assocKinds {
 		out = append(out, item{"[:](" + k + ")", mkExp(k, nil, nil)})
 	}
 	var tuples [][]item
@@ -432,7 +430,13 @@ func collections(pool []item, maxItems int, indent string) []item {
 			var ats []string
 			var keys []*Exp
 			for i, it := range tp {
-				kp := keyPool[(i*2+ti)%len(keyPool)] // keys repeat in some tuples
+				kp := keyPool[(i*2+ti)%len(keyPool)]
+				if ti%3 == 1 && i == len(tp)-1 && len(tp) > 1 {
+					kp = keyPool[ti%len(keyPool)] // the last association repeats the first key: first position, last value
+				}
+				if ti%7 == 3 && len(tp) == 3 && i == 1 {
+					kp = keyPool[ti%len(keyPool)] // the middle association repeats the first key
+				}
 				ats = append(ats, kp.text+": "+it.text)
 				keys = append(keys, kp.exp)
 			}
